@@ -111,9 +111,15 @@ def est_bytes(er):
     return tuple(np.ascontiguousarray(v).tobytes() for v in er.estimated_var_sequence)
 
 
-def gen_from_key(root, path):
-    from numpy.random import Generator, MT19937, SeedSequence
-    return Generator(MT19937(SeedSequence(int(root), spawn_key=tuple(int(x) for x in path))))
+def gen_from_key(root, path, bitgen="MT19937"):
+    import numpy.random as npr
+    return npr.Generator(getattr(npr, bitgen)(npr.SeedSequence(int(root), spawn_key=tuple(int(x) for x in path))))
+
+
+def global_state():
+    """numpy's process-global generator state, comparable"""
+    st = np.random.get_state()
+    return (st[0], st[1].tobytes(), st[2], st[3], st[4])
 
 
 def parse_keys(vals, count):
@@ -287,7 +293,8 @@ def build_single(case):
     ec = estimator_cases()[case["est"]]
     st = sim.StandardQTomographySimulationSetting(
         name=case["est"], true_object=true, tester_objects=tobjs, estimator=ec["estimator"],
-        seed_data=mk_seed(case["seed_data"], case.get("seed_dtype")), n_rep=case["n_rep"], num_data=case["num_data"], schedules="all",
+        seed_data=mk_seed(case["seed_data"], case.get("seed_dtype")), n_rep=case["n_rep"], num_data=case["num_data"],
+        schedules=[[tuple(it) for it in sch] for sch in case["schedules"]] if case.get("schedules") else "all",
         eps_proj_physical=1e-5, eps_truncate_imaginary_part=1e-5,
         loss=ec["loss"][0], loss_option=ec["loss"][1], algo=ec["algo"][0], algo_option=ec["algo"][1])
     qt = sim.generate_qtomography(st, para=case["para"], init_with_seed=case.get("init_with_seed", True))
@@ -301,7 +308,7 @@ def single_arg(case):
         return None
     if a["kind"] == "int":
         return mk_seed(a["seed"], a.get("dtype"))
-    return gen_from_key(a["root"], a["path"])
+    return gen_from_key(a["root"], a["path"], a.get("bitgen", "MT19937"))
 
 
 def chk_single(ctx, case):
@@ -312,9 +319,15 @@ def chk_single(ctx, case):
     with quiet():
         sim, st, qt = build_single(case)
         runs = []
-        for _ in range(2):
+        seeded_run = not (a["kind"] == "none" and case["seed_data"] is None)
+        touched = None
+        for rnd in range(2):
             if case.get("ambient_seed") is not None:
                 np.random.seed(case["ambient_seed"])
+            elif seeded_run:
+                # numpy's GLOBAL generator in a different state before each of the two runs: a seeded run must neither read it ...
+                np.random.seed(1000 + 7 * rnd + (case["seed_data"] or 0) % 1000)
+            g_before = global_state()
             try:
                 runs.append(sim.execute_simulation(qt, st, seed_or_generator=single_arg(case)))
             except TypeError as e:
@@ -322,6 +335,11 @@ def chk_single(ctx, case):
                     raise
                 runs = str(e)
                 break
+            if seeded_run and global_state() != g_before:
+                touched = rnd      # ... nor advance / re-seed it
+            if rnd == 0 and seeded_run and case.get("history", True):
+                # history on the re-used setting / tomography / estimator objects: an unrelated run with ANOTHER seed in between
+                sim.execute_simulation(qt, st, seed_or_generator=int((case["seed_data"] or 1) + 12345))
     if isinstance(runs, str):
         # the model yields a result for every tomography type; the implementation yields none
         ctx.count("single", key=repr(case), nontrivial=False, label="%s-%s-raises" % (case["tomo"], case["est"]))
@@ -330,6 +348,10 @@ def chk_single(ctx, case):
                       "name execute_simulation passes it; no simulation result for a valid configuration" % (case["tomo"], runs), case)
         return
     r0, r1 = runs
+    if touched is not None:
+        ctx.violation("single", site, "seeded-run-touches-global-generator",
+                      "a run with an explicit seed / Generator changed the state of numpy's process-global generator (np.random): other code that draws "
+                      "from np.random is no longer independent of the simulation", case)
     # (a) repeat: bit-identical
     same = ([empi_bytes(s) for s in r0.empi_dists_sequences] == [empi_bytes(s) for s in r1.empi_dists_sequences]
             and [est_bytes(e) for e in r0.estimation_results] == [est_bytes(e) for e in r1.estimation_results])
@@ -341,7 +363,8 @@ def chk_single(ctx, case):
     ambient = any(k[0] == "ambient" for k in keys)
     ctx.count("single", key=repr(case), nontrivial=n_rep >= 2, label="%s-%s-%s%s" % (case["tomo"], case["est"], (a["kind"] + (":np." + a["dtype"] if a.get("dtype") else "")) if a["kind"] != "none" else (("default-seed_data" + (":np." + case["seed_dtype"] if case.get("seed_dtype") else "")) if case["seed_data"] is not None else "ambient"), "" if case["para"] else "-nopara"))
     if not same and not (ambient and case.get("ambient_seed") is None):
-        ctx.violation("single", site, "repeat-not-identical", "two runs with the same settings and seed differ", case)
+        ctx.violation("single", site, "repeat-not-identical", "two runs with the same settings and seed differ (numpy's global generator was in a different state before each "
+                      "run, and an unrelated run with another seed was made on the same objects in between)", case)
     # (c) regenerate every repetition's data from the key the model assigns to it
     stored = [empi_bytes(s) for s in r0.empi_dists_sequences]
 
@@ -355,7 +378,7 @@ def chk_single(ctx, case):
             for r, k in enumerate(ks):
                 groups.setdefault(k[:-1], []).append((k[-1], r))
             for ident, lst in groups.items():
-                g = np.random if ident[0] == "ambient" else gen_from_key(ident[1], ident[2])
+                g = np.random if ident[0] == "ambient" else gen_from_key(ident[1], ident[2], a.get("bitgen", "MT19937"))
                 for o in range(max(o for o, _ in lst) + 1):
                     d = qt.generate_empi_dists_sequence(st.true_object, st.num_data, g)
                     for (oo, r) in lst:
@@ -412,6 +435,14 @@ def sub_single(ctx):
         base = dict(tomo="state", est="linear", n_rep=3, num_data=[20, 2000], para=True)
         cases.append(dict(base, seed_data=rng.randrange(1, 2 ** 31), arg={"kind": "int", "seed": sd, "dtype": dt}))
         cases.append(dict(base, seed_data=sd, seed_dtype=dt, arg={"kind": "none"}))
+    # a Generator over another bit generator (the code must only thread it), user-defined (re-ordered / repeated) schedules
+    cases.append(dict(tomo="state", est="linear", n_rep=3, num_data=[20, 2000], para=True, seed_data=rng.randrange(1, 2 ** 31),
+                      arg={"kind": "gen", "root": rng.randrange(1, 2 ** 31), "path": [3], "bitgen": rng.choice(["PCG64", "Philox", "SFC64"])}))
+    sched = [[["state", 0], ["povm", k]] for k in rng.sample([0, 1, 2], 3)] + [[["state", 0], ["povm", rng.randrange(3)]]]
+    cases.append(dict(tomo="state", est="projected_linear", n_rep=3, num_data=[20, 500], para=rng.random() < 0.5, seed_data=rng.randrange(1, 2 ** 31),
+                      schedules=sched, arg={"kind": "none"}))
+    cases.append(dict(tomo="state", est="linear", n_rep=2, num_data=[50], para=True, seed_data=rng.randrange(1, 2 ** 31),
+                      schedules=sched, arg={"kind": "int", "seed": rng.randrange(1, 2 ** 31), "dtype": "int64"}))
     if ctx.quick:      # the other three kinds of unknown, once each (the thorough tier runs the full grid)
         for tomo in ["povm", "gate", "mprocess"]:
             cases.append(dict(tomo=tomo, est="linear", n_rep=3, num_data=[20, 500], para=True, seed_data=rng.randrange(1, 2 ** 31), arg={"kind": "none"}))
@@ -703,11 +734,15 @@ def chk_flow(ctx, case):
     label = "%s-true:%s-testers:%s" % (case["tomo"], case["true_noise"], case["tester_noise"] if isinstance(case["tester_noise"], str) else "mixed")
     exec_check = case.get("exec_check", PHYS_ONLY)
     # ---- reference run
+    np.random.seed(4242 + case["seed_data"] % 1000)       # numpy's global generator: a fully seeded flow must neither read nor change it
+    g_before = global_state()
     try:
         ref = run_flow(ts, None, exec_check)
         impl_raises = None
     except TypeError as e:
         ref, impl_raises = None, "TypeError"
+    flow_touched = impl_raises is None and global_state() != g_before
+    np.random.seed(99 + case["seed_qoperation"] % 1000)    # ... a different global state before the repeat run
     ctx.count("flow", key=(repr(case), "ref"), label=label + ("-raises" if impl_raises else "-serial"))
     if impl_raises:
         if raises_before and not raises:
@@ -740,6 +775,9 @@ def chk_flow(ctx, case):
         else:
             ctx.violation("flow", site, "not-reproducible", "%s differ between two serial runs with identical settings and seeds" % rep_diff, case)
         return
+    if flow_touched:
+        ctx.violation("flow", site, "seeded-run-touches-global-generator",
+                      "a serial run of the flow entry point with seed_qoperation / seed_data changed the state of numpy's process-global generator", case)
     # ---- objects regenerated from the model keys
     with quiet():
         bad0 = objects_match(case, ts, gk, by, n_tester)
@@ -1214,6 +1252,12 @@ def sub_depol(ctx):
                         cases.append(dict(mode=mode, kind=kind, name=name, p=p, path=path, gen_seed=rng.randrange(10 ** 6), boundary=rng.random() < 0.5))
                         if name == "cx":
                             cases[-1]["ids"] = rng.choice([[0, 1], [1, 0]])
+    if ctx.quick:      # composite system (two elemental systems): global vs local depolarising differ only there; cheap deterministic cases
+        for kind, name in [("state", "generic"), ("state", "bell_phi_plus"), ("povm", "gen-povm"), ("gate", "gen-mix"), ("mprocess", "gen-instr2")]:
+            for p in ["1/3", "7/8"]:
+                cases.append(dict(mode="2qubit", kind=kind, name=name, p=p, path="setting", gen_seed=rng.randrange(10 ** 6), boundary=False))
+        cases.append(dict(mode="2qubit", kind="gate", name="cx", p="1/3", path="typical", ids=[0, 1], gen_seed=1))
+        cases.append(dict(mode="2qubit", kind="state", name="a", p="1/3", path="tester", gen_seed=1))
     if "2qubit" in modes:      # tester constructors on a composite system: 1-qubit names, product objects
         for kind, name in [("state", "a"), ("state", "z0"), ("povm", "x")]:
             for p in ["0", "1", "1/3"]:
@@ -1280,7 +1324,25 @@ def sub_randlind(ctx):
 
 
 # ------------------------------------------------------------------ decision table on synthetic stored estimates
+@contextlib.contextmanager
+def ineq_eps(value):
+    """temporarily change the module-global inequality threshold through its documented setter"""
+    from quara.data_analysis import physicality_violation_check as pvc
+    old = pvc.get_ineq_const_eps()
+    if value is not None:
+        pvc.set_ineq_const_eps(float(Fraction(value)))
+    try:
+        yield
+    finally:
+        pvc.set_ineq_const_eps(old)
+
+
 def chk_decision(ctx, case):
+    with ineq_eps(case.get("ineq_eps")):
+        _chk_decision(ctx, case)
+
+
+def _chk_decision(ctx, case):
     from quara.objects.state import State
     from quara.protocol.qtomography.standard.standard_qst import StandardQst
     from quara.protocol.qtomography.standard.linear_estimator import LinearEstimator, LinearEstimationResult
@@ -1363,6 +1425,12 @@ def sub_decision(ctx):
                     for _ in range(rng.choice([1, 1, 2])):
                         ests[rng.randrange(n_rep)][rng.randrange(n_num)] = list(rng.choice(pool))
                 cases.append(dict(cfg=list(cfg), para=para, n_rep=n_rep, n_num=n_num, ests=ests))
+            # the inequality threshold changed through set_ineq_const_eps (module global): every path must use the CURRENT value
+            for eps_, rr in (("1/1000", "10001/10000"), ("1/1000", "101/100"), ("1/10000000", "100001/100000")):
+                n_rep, n_num = rng.choice([1, 2]), rng.choice([1, 2])
+                ests = [[list(rng.choice(good)) for _ in range(n_num)] for _ in range(n_rep)]
+                ests[rng.randrange(n_rep)][rng.randrange(n_num)] = ["1", rr]
+                cases.append(dict(cfg=list(cfg), para=para, n_rep=n_rep, n_num=n_num, ests=ests, ineq_eps=eps_))
             # empty inputs: the IndexError branches
             cases.append(dict(cfg=list(cfg), para=para, n_rep=0, n_num=2, ests=[]))
             cases.append(dict(cfg=list(cfg), para=para, n_rep=2, n_num=0, ests=[[], []]))
